@@ -55,10 +55,16 @@ def make(ftype, cost, ds="d0"):
 class Sys:
     def __init__(self, first):
         self.ftype, self.cost, self.nfits = first["fit"], first["cost"], first["nfits"]
+        self.joint = bool(first.get("joint", False))
         self.fits = [make(self.ftype, self.cost, "d0")]
+        self.multi = None
         if self.nfits == 2:
             self.fits.append(make(self.ftype, self.cost, "d1"))
-            self.fits[1].do_fit()
+            if self.joint:
+                from kafe2 import MultiFit
+                self.multi = MultiFit(self.fits)
+            else:
+                self.fits[1].do_fit()
         self.plot = None
         self.n = 0
 
@@ -92,9 +98,9 @@ class Sys:
                     if self.ftype == "hist" and self.cost == "chi2":
                         f.add_error(0.6, name="own")
         elif a["name"] == "DoFit":
-            f.do_fit()
+            (self.multi or f).do_fit()
         elif a["name"] == "MakePlot":
-            self.plot = Plot(self.fits if self.nfits == 2 else self.fits[0], separate_figures=False)
+            self.plot = Plot(self.multi if self.joint else (self.fits if self.nfits == 2 else self.fits[0]), separate_figures=False)
         elif a["name"] != "Draw":
             raise RuntimeError("adapter: unknown action %r" % a["name"])
 
@@ -174,7 +180,12 @@ class Snap:
             self.density_factor = (float(hc.n_entries) if fit.density else 1.0) * float(hc.high - hc.low) / hc.size
 
 
-def check_legend(fig, fits, k_issue):
+def multi_snap(m):
+    f = lambda v: None if v is None else float(v)
+    return dict(gof=f(m.goodness_of_fit), ndf=int(m.ndf), chi2p=f(m.chi2_probability))
+
+
+def check_legend(fig, fits, multi=None):
     texts = [t.get_text() for t in fig.legends[0].get_texts()] if fig.legends else []
     infos = [t for t in texts if "\n" in t]
     out = []
@@ -207,6 +218,17 @@ def check_legend(fig, fits, k_issue):
                         out.append(("legend: value of parameter %d" % j, l, pv[j]))
                 continue
             m = re.search(r"/ \{\\rm ndf\} = \$?([^$ ]+) / (\d+) = ([^$ ]+)\$", l) or re.search(r"/ \{\\rm ndf\} = ([^$ ]+) / (\d+) = ([^$ ]+)", l)
+            if "global" in l:
+                if multi is None:
+                    out.append(("legend: a 'global' line without a multi-fit", l, None))
+                elif m and multi["gof"] is not None:
+                    if not near(delatex(m.group(1)), multi["gof"]) or int(m.group(2)) != multi["ndf"] or not near(delatex(m.group(3).rstrip("$")), multi["gof"] / multi["ndf"]):
+                        out.append(("legend: global goodness of fit / ndf", l, (multi["gof"], multi["ndf"])))
+                else:
+                    m3 = re.search(r"probability\} = \$\$([^$]+)\$", l)
+                    if m3 and multi["chi2p"] is not None and not near(delatex(m3.group(1)), multi["chi2p"]):
+                        out.append(("legend: global chi2 probability", l, multi["chi2p"]))
+                continue
             if m:
                 gof = fit.goodness_of_fit
                 if gof is not None:
@@ -237,7 +259,7 @@ def check_draw(sysm, a):
         p.y_scale = "log"
     if a["separate"]:
         from kafe2 import Plot
-        p = Plot(sysm.fits, separate_figures=True)
+        p = Plot(sysm.multi if sysm.joint else sysm.fits, separate_figures=True)
     kw = {}
     if a["panel"] != "none":
         kw[a["panel"]] = True
@@ -247,6 +269,7 @@ def check_draw(sysm, a):
         for f in sysm.fits:
             _ = f.asymmetric_parameter_errors
     before = [Snap(f, ftype, cost) for f in sysm.fits]
+    mbefore = multi_snap(sysm.multi) if sysm.joint else None
     try:
         res = p.plot(asymmetric_parameter_errors=a["asym"], **kw)
     except Exception as exc:
@@ -254,6 +277,9 @@ def check_draw(sysm, a):
         plt.close("all")
         return [("Plot.plot raised %s" % type(exc).__name__, traceback.format_exc()[-700:], None)]
     after = [Snap(f, ftype, cost) for f in sysm.fits]
+    msnap = [None, mbefore]
+    if sysm.joint:
+        msnap[0] = multi_snap(sysm.multi)
     try:
       # computing asymmetric uncertainties inside plot() may move the optimum by a rounding-size step: the drawn numbers must be those the
       # fit held immediately before OR immediately after the call
@@ -356,7 +382,7 @@ def check_draw(sysm, a):
             fig = p.figures[-len(sysm.fits):][fi] if a["separate"] else p.figures[-1]
             fits_here = [fit] if a["separate"] else (snaps if fi == 0 else [])
             if fits_here:
-                bad += check_legend(fig, fits_here, 0)
+                bad += check_legend(fig, fits_here, msnap[0 if snaps is after else 1])
         if not bad:
             break
         if first_bad is None:
